@@ -1,6 +1,6 @@
 ID = "C03"
 LEVEL = "proof"
-COQ_TARGETS = ["Props/Properties_C03.vo", "Extract/ExtractSpec.vo"]
+COQ_TARGETS = ["Props/Properties_C03.vo", "Extract/ExtractSpec.vo", "Spec/SpecFacts.vo"]
 PROPS_FILES = ["Props/Properties_C03.v"]
 RUNS = [dict(name="spec", harness="c03", driver="spec", model_ml="spec_model")]
 EXPLANATION = ("coq/Spec/Spec.v is a decoder written from the Cap'n Proto encoding specification (only /, mod and byte "
@@ -21,19 +21,17 @@ TRUSTED = ["coq/Spec/Spec.v is the author's reading of capnproto.org/encoding.ht
 MODELLED = ["Go slices (modelled by Reader.slice)", "uint64 budget and uint depth (Z with explicit wrap where Go wraps)"]
 ASSUMPTIONS = ["bytes are 0..255",
                "completeness only: every segment is at most 2^32-8 bytes; composite element counts < 2^29 (the reader "
-               "rejects larger counts, known finding); the landing pad 'far offset 0 + tag word 0' is excluded (known "
-               "finding: read as null)",
+               "rejects larger counts with an error, known finding)",
                "harness runs use T=2^62, D=1000 so that limits never interfere (limits are C02's subject)"]
 LEVEL_TEXT = ("Proof: for all 64-bit words the field extractors equal the spec's fields; for all messages, addresses and "
-              "limits a pointer returned by readPtr is the spec's target and lies inside the segments (one stated "
-              "exception), and conversely the spec's target is returned when limits suffice; all struct/list/text/data "
+              "limits a pointer returned by readPtr is the spec's target and lies inside the segments, and conversely the spec's target is returned when limits suffice; all struct/list/text/data "
               "accessors return the spec's values incl. short/long sections and list upgrades. Tie: the extracted spec "
               "decoder vs the real accessors on encoder-generated, library-built, mutated, raw and cyclic messages: "
               "pointer targets, field sweeps over offsets 0..DataSize+8 x widths 1/2/4/8 and all bits, list reads of every "
               "family, whole-tree walks, and the encoder's own value tree.")
 LEVEL_NOTE = ("The stretch theorem walk_eq_spec (whole-tree equality walk = spec_decode, and budget consumed = spec cost, "
-              "for all messages, caps and fuel) is proved in full (coq/Spec/WalkProofs.v). Known findings: double-far pointer to a zero-sized struct at word 0 read as null; composite tag "
-              "counts >= 2^29 rejected.")
+              "for all messages, caps and fuel) is proved in full (coq/Spec/WalkProofs.v). Known finding: composite tag counts >= 2^29 (zero-sized elements) are rejected with an error. "
+              "Fixed during this work (3672bba): double-far pointer to a zero-sized struct at word 0 of a segment was read as null.")
 TECHNIQUE = "Coq proof over an executable model + extracted-model/implementation differential run"
 DESIGN_REF = "DESIGN.md section 6, C03"
 
